@@ -18,15 +18,15 @@ impl SecureChannel {
 }
 pub struct ChunkInfo { pub message_header: MessageChunkHeader, pub body_offset: usize, pub body_length: usize }
 pub struct MessageChunk { pub data: Vec<u8> }
-// (is_final, body offset) of a chunk, or None when its headers do not decode: functions of its bytes
-pub uninterp spec fn spec_hdr(c: MessageChunk) -> Option<(MessageIsFinalType, usize)>;
+// (is_final, body offset, message type) of a chunk, or None when its headers do not decode: functions of its bytes
+pub uninterp spec fn spec_hdr(c: MessageChunk) -> Option<(MessageIsFinalType, usize, MessageChunkType)>;
 impl MessageChunk {
     // ChunkInfo::new: after the three headers "all of what follows is the message body":
     // body_length = data.len() - body_offset, with the offset inside the chunk
     #[verifier::external_body]
     pub fn chunk_info(&self, secure_channel: &SecureChannel) -> (r: Result<ChunkInfo, StatusCode>)
         ensures (r is Ok) == (spec_hdr(*self) is Some),
-            r is Ok ==> spec_hdr(*self) == Some((r->Ok_0.message_header.is_final, r->Ok_0.body_offset))
+            r is Ok ==> spec_hdr(*self) == Some((r->Ok_0.message_header.is_final, r->Ok_0.body_offset, r->Ok_0.message_header.message_type))
                 && r->Ok_0.body_offset <= self.data@.len() && r->Ok_0.body_length == self.data@.len() - r->Ok_0.body_offset
                 && self.data@.len() <= usize::MAX,     // a Vec's length is a usize
     { unimplemented!() }
@@ -83,6 +83,10 @@ pub open spec fn flags_ok(cs: Seq<MessageChunk>) -> bool {
     forall|i: int| 0 <= i < cs.len() ==> spec_hdr(#[trigger] cs[i]) is Some
         && spec_hdr(cs[i])->Some_0.0 == (if i == cs.len() - 1 { MessageIsFinalType::Final } else { MessageIsFinalType::Intermediate })
 }
+// all the chunks carry the message type of the first
+pub open spec fn one_type(cs: Seq<MessageChunk>) -> bool {
+    forall|i: int| 0 <= i < cs.len() ==> spec_hdr(#[trigger] cs[i])->Some_0.2 == spec_hdr(cs[0])->Some_0.2
+}
 // what the tail of decode computes from the reassembled bytes
 pub open spec fn message_of(data: Seq<u8>, expected: Option<NodeId>) -> Result<SupportedMessage, StatusCode> {
     match spec_node_id(data) {
@@ -101,10 +105,12 @@ pub open spec fn message_of(data: Seq<u8>, expected: Option<NodeId>) -> Result<S
 SPEC = {
     'decode': ('r', '''        requires total_len(chunks@) <= usize::MAX,     // the chunks are in memory
         ensures
-            // accepted only with the final flag on the last chunk and on no other
-            r is Ok ==> flags_ok(chunks@),
-            // the message is decoded from exactly the bodies concatenated in order
-            flags_ok(chunks@) ==> r == message_of(bodies(chunks@), expected_node_id),'''),
+            // accepted only with the final flag on the last chunk and on no other, and then the message is decoded from exactly
+            // the bodies concatenated in order
+            r is Ok ==> flags_ok(chunks@) && r == message_of(bodies(chunks@), expected_node_id),
+            // chunks as a sender makes them (unit c07_encode: final flag on the last one only, one message type) are not refused
+            // for their form
+            flags_ok(chunks@) && one_type(chunks@) ==> r == message_of(bodies(chunks@), expected_node_id),'''),
 }
 
 LEMMAS = '''
